@@ -91,7 +91,15 @@ func TestMain(m *testing.M) {
 	os.Exit(m.Run())
 }
 
+// genPolicy draws a scheduling policy; the behaviour of the sync.Pool
+// replacement (always reuse / never / alternate) rides on the policy seed.
 func genPolicy(r *simctl.Rand, est int) simctl.Policy {
+	p := genPolicy0(r, est)
+	p.Pool = []int{0, 0, 0, 1, 2}[p.Seed%5]
+	return p
+}
+
+func genPolicy0(r *simctl.Rand, est int) simctl.Policy {
 	switch r.Intn(8) {
 	case 0, 1, 2:
 		return simctl.Policy{Kind: "pct", Seed: r.Uint64(), Depth: 1 + r.Intn(3), Span: est}
@@ -261,7 +269,7 @@ func TestBatch(t *testing.T) {
 		cur := *c
 		min := false
 		if sim && len(res.Found) < 3 {
-			cur.Policy = simctl.Policy{Kind: "recorded"}
+			cur.Policy = simctl.Policy{Kind: "recorded", Pool: cur.Policy.Pool}
 			cur.Picks = append([]int(nil), o.Sim.Picks...)
 			evals := 0
 			still := func(x *Cfg) bool {
@@ -302,7 +310,7 @@ func TestBatch(t *testing.T) {
 		}
 		if cur.Policy.Kind != "recorded" && sim {
 			cur.Picks = append([]int(nil), fo.Sim.Picks...)
-			cur.Policy = simctl.Policy{Kind: "recorded"}
+			cur.Policy = simctl.Policy{Kind: "recorded", Pool: cur.Policy.Pool}
 		}
 		rf := ReplayFile{"C18", fm.Clause, fm.Detail, job.Seed, idx, job.RepoRev, cur, names(), fo.Sim.TraceHash, fo.Sim.Trace, c}
 		name := fmt.Sprintf("C18-%d-%d-%s.json", job.Seed, idx, sanitize(mm.Clause))
